@@ -68,7 +68,11 @@ V == << [k |-> "null"], Num(1), Str(97), [k |-> "bool", b |-> TRUE],
         Ctx(<<>>), Ctx(<<CE("a", <<97>>, Num(1))>>), Ctx(<<CE("a", <<97>>, Num(1)), CE("b", <<98>>, Str(97))>>),
         Ctx(<<CE("a", <<97>>, Str(97))>>), Ctx(<<CE("b", <<98>>, Num(1))>>), Ctx(<<CE("a", <<97>>, [k |-> "null"])>>),
         [k |-> "range", lo |-> Num(1), lc |-> TRUE, hi |-> Num(2), hc |-> TRUE],
-        Lst(<<[k |-> "range", lo |-> Num(1), lc |-> TRUE, hi |-> Num(2), hc |-> TRUE]>>) >>
+        Lst(<<[k |-> "range", lo |-> Num(1), lc |-> TRUE, hi |-> Num(2), hc |-> TRUE]>>),
+        \* lists of several composite items: of one type, and of different types (the list is then a list<Any>)
+        Lst(<<Lst(<<Num(1)>>), Lst(<<Num(2)>>)>>), Lst(<<Lst(<<Num(1)>>), Lst(<<Str(97)>>)>>), Lst(<<Lst(<<>>), Lst(<<Num(1)>>)>>),
+        Lst(<<Ctx(<<CE("a", <<97>>, Num(1))>>), Ctx(<<CE("a", <<97>>, Str(97))>>)>>), Lst(<<Ctx(<<CE("a", <<97>>, Num(1))>>), Ctx(<<CE("a", <<97>>, Num(2))>>)>>),
+        Lst(<<Num(1), Str(97)>>), Lst(<<Lst(<<Num(1)>>), Num(2)>>), Lst(<<Ctx(<<CE("a", <<97>>, Num(1))>>), Ctx(<<>>)>>) >>
 
 ASSUME SpecLaws \/ PrintT(<<"REJECT", 0, "the specification's own relations break a law">>)
 ASSUME PrintT(<<"UNIVERSE", ToJson(U)>>)
